@@ -570,7 +570,7 @@ func importedVariant(src string) (string, map[string]string) {
 }
 
 func checkC06(c *Check) {
-	c.Rule = "exhaustive typing table: every typed position of the grammar x every offered type (int, bool, string, []int, []bool, []string, void call, 2-value call; several spellings each) x enclosing context (top level, function, if, for, switch case), everything else in the program well typed; expected verdict from Go's typing rules / the README signatures; both targets must agree; plus (thorough) well-typed generated programs with exactly one operand/condition/argument replaced by a value of another type. Non-trivial = every cell (each is a distinct ill- or well-typed program); distinct = SHA-256 of the source"
+	c.Rule = "exhaustive typing table: every typed position of the grammar x every offered type (int, bool, string, []int, []bool, []string, void call, 2-value call, program call (3 values), the last three also in round brackets; error-typed variables, parameters and results; empty literals; several spellings each) x enclosing context (top level, function, function nobody calls, if, for, switch case), everything else in the program well typed; expected verdict from Go's typing rules / the README signatures; both targets must agree; plus (thorough) well-typed generated programs with exactly one operand/condition/argument replaced by a value of another type. Non-trivial = every cell (each is a distinct ill- or well-typed program); distinct = SHA-256 of the source"
 	c.Assumptions = []string{"the expected verdicts encode Go's typing rules for the shared syntax and the README's builtin signatures", "excluded as unspecified: ordering of strings, argument type of panic, equality of slices, printing slices/multi-values, multi-value spread"}
 	runProbes(c, bashProbeJudge)
 	cells := c06Cells(c.Thorough())
